@@ -54,8 +54,8 @@ static void stdout_restore(void)
 }
 
 /* -------------------------------------------------------------- anchor sets */
-enum { A_NONE = 0, A_R, A_R2, A_R_R2, A_R2_R, A_L1, A_RPL0, A_RPL1, A_N };
-static const char *anchor_name[A_N] = { "{}", "{R}", "{R2}", "{R,R2}", "{R2,R}", "{L1}", "{R.pathlen0}", "{R.pathlen1}" };
+enum { A_NONE = 0, A_R, A_R2, A_R_R2, A_R2_R, A_L1, A_RPL0, A_RPL1, A_RCRIT, A_RCRIT_R2, A_N };
+static const char *anchor_name[A_N] = { "{}", "{R}", "{R2}", "{R,R2}", "{R2,R}", "{L1}", "{R.pathlen0}", "{R.pathlen1}", "{R.rejected-by-parser}", "{R.rejected-by-parser,R2}" };
 
 static int anchor_ids(int sl, int a, int *out)
 {
@@ -69,6 +69,8 @@ static int anchor_ids(int sl, int a, int *out)
     case A_L1: out[0] = u_ca[sl][1][K_GOOD]; return 1;
     case A_RPL0: out[0] = u_root[sl][R_PL0]; return 1;
     case A_RPL1: out[0] = u_root[sl][R_PL1]; return 1;
+    case A_RCRIT: out[0] = u_root[sl][R_CRIT]; return 1;
+    case A_RCRIT_R2: out[0] = u_root[sl][R_CRIT]; out[1] = u_root[sl][R_SECOND]; return 2;
     }
     return 0;
 }
@@ -254,8 +256,16 @@ static int eval_case(const case_t *c, eval_t *e)
         for (i = 0; i < e->na; i++) u_dump_pem(e->anch[i], "trust anchor");
     }
     ms_run(e->chain, e->n, e->anch, e->na, &e->ms);
-    ref_lax(e->chain, e->n, e->anch, e->na, &e->lax);
-    ref_strict(e->chain, e->n, e->anch, e->na, &e->strict);
+    {
+        /* for the reference an anchor the parser rejects is no anchor */
+        int ra[4], nra = 0, i;
+        for (i = 0; i < e->na; i++)
+        {
+            if (e->anch[i] != u_root[c->a.slice][R_CRIT]) ra[nra++] = e->anch[i];
+        }
+        ref_lax(e->chain, e->n, ra, nra, &e->lax);
+        ref_strict(e->chain, e->n, ra, nra, &e->strict);
+    }
     if (g_dump)
     {
         char d[96];
